@@ -33,6 +33,7 @@ pub fn run(tier: &str, seed: u64) -> i32 {
     let thorough = tier == "thorough";
     std::panic::set_hook(Box::new(|_| {}));
     let (mut descs, mut dropped) = draw(seed, tier, &Profile::python(), "C13", if thorough { 160 } else { 24 });
+    crate::rustharness::append_corpus(&mut descs, "python");
     let dir = work_dir().join(format!("py-{tier}-{seed}"));
     let _ = std::fs::remove_dir_all(&dir);
     let _ = std::fs::create_dir_all(&dir);
